@@ -1,4 +1,5 @@
 import Cascette.Props.C04
+import Cascette.Proofs.ArchiveTie
 open Cascette.Props.C04
 #print axioms read_ok_iff_mapped
 #print axioms archive_write_read_any_mode
@@ -13,3 +14,31 @@ open Cascette.Props.C04
 #print axioms installation_read_eq_written_partial
 #print axioms installation_double_decode_pinned_witness
 #print axioms installation_blte_shaped_fixed_witness
+#print axioms installation_read_eq_written
+#print axioms installation_written_object_read_back
+#print axioms open_then_initialize_is_reopen
+#print axioms installation_data_never_lost
+#print axioms uninitialized_write_truncated_pinned
+#print axioms archive_write_without_open_truncated_pinned
+#print axioms archive_write_without_open_appends
+#print axioms uninitialized_write_replaces_bucket
+#print axioms write_limits_are_placeAt
+#print axioms no_limit_at_1GiB
+#print axioms idx_offset_cut_to_30_bits
+#print axioms offset_past_1GiB_wraps_after_reopen
+#print axioms idx_offset_wrap_witness
+-- translator tie: constants / predicates extracted from the current Rust source (lib/rs2lean_archive.py) = what the model computes with
+#print axioms Cascette.Proofs.ArchiveTie.header_size_tie
+#print axioms Cascette.Proofs.ArchiveTie.archive_limits_tie
+#print axioms Cascette.Proofs.ArchiveTie.remap_tie
+#print axioms Cascette.Proofs.ArchiveTie.remap_src_remapsOnChange
+#print axioms Cascette.Proofs.ArchiveTie.create_tie
+#print axioms Cascette.Proofs.ArchiveTie.write_file_tie
+#print axioms Cascette.Proofs.ArchiveTie.read_bounds_tie
+#print axioms Cascette.Proofs.ArchiveTie.sniff_tie
+#print axioms Cascette.Proofs.ArchiveTie.placeAt_tie
+#print axioms Cascette.Proofs.ArchiveTie.offset_check_order_tie
+#print axioms Cascette.Proofs.ArchiveTie.localHeader_tie
+#print axioms Cascette.Proofs.ArchiveTie.layout_tie
+#print axioms Cascette.Proofs.ArchiveTie.localHeader_shape
+#print axioms Cascette.Proofs.ArchiveTie.idx_offset_tie
